@@ -212,6 +212,34 @@ def parse_builder_expr(s, names, jtxt):
         return None
     return go(s)
 
+def parse_printer(jtxt, ops):
+    """the binary operators of JcOpInfoTable with the text, precedence and associativity of their class, and
+    whether jcBinOpPrint / jc0PrintWithParens / jc0NeedsParens are the rule modelled in Model/JPrint.lean"""
+    rows = {}
+    for m in re.finditer(r"\{\s*(JCO_CLSS_\w+)\s*,\s*(\w+)\s*,\s*\w+\s*,\s*\"([^\"]*)\"\s*,\s*\"([^\"]*)\"\s*,\s*(\d+)\s*,\s*(JCO_\w+)\s*\}", jtxt):
+        rows[m.group(1)] = {"printer": m.group(2), "txt": m.group(4).strip(), "prec": int(m.group(5)), "assoc": m.group(6)}
+    binops = []
+    for op, inf in ops.items():
+        c = rows.get(inf["cls"]) if inf["cls"] else None
+        if c and c["printer"] == "jcBinOpPrint" and op != "JCO_OP_Assign":
+            binops.append({"name": op.replace("JCO_OP_", ""), "txt": c["txt"], "prec": c["prec"], "lr": c["assoc"] == "JCO_LR"})
+    def body(fn):
+        m = re.search(r"\n" + fn + r"\s*\([^)]*\)\s*\{(.*?)\n\}", jtxt, re.S)
+        return re.sub(r"\s+", "", m.group(1)) if m else ""
+    b = body("jcBinOpPrint"); w = body("jc0PrintWithParens"); n = body("jc0NeedsParens")
+    std_b = ("JavaCodeClassthisClss=jcoClass(code);JavaCodelhs=jcoArgv(code)[0];JavaCoderhs=jcoArgv(code)[1];"
+             "JavaCodeClasslClss=jcoClass(lhs);JavaCodeClassrClss=jcoClass(rhs);"
+             "Boollpar=thisClss->assoc==JCO_RL&&lClss->prec==thisClss->prec;"
+             "Boolrpar=thisClss->assoc==JCO_LR&&rClss->prec==thisClss->prec;"
+             "if(lpar)jcoPContextWrite(ctxt,\"(\");jc0PrintWithParens(ctxt,thisClss,lhs);if(lpar)jcoPContextWrite(ctxt,\")\");"
+             "jcoPContextWrite(ctxt,thisClss->txt);"
+             "if(rpar)jcoPContextWrite(ctxt,\"(\");jc0PrintWithParens(ctxt,thisClss,rhs);if(rpar)jcoPContextWrite(ctxt,\")\");")
+    std_w = ("JavaCodeClassaClss=jcoClass(arg);if(jc0NeedsParens(oClss,aClss)){jcoPContextWrite(ctxt,\"(\");jcoWrite(ctxt,arg);"
+             "jcoPContextWrite(ctxt,\")\");}else{jcoWrite(ctxt,arg);}")
+    std_n = "if(c2->prec==0)returnfalse;returnc1->prec>c2->prec;"
+    why = [f for f, got, want in (("jcBinOpPrint", b, std_b), ("jc0PrintWithParens", w, std_w), ("jc0NeedsParens", n, std_n)) if got != want]
+    return {"binops": binops, "standard": not why, "why": why}
+
 def parse_bint_literal(gtxt, jtxt):
     """gj0BInt: when is a big-integer constant emitted as `BigInteger.valueOf(<int literal>)` (else as
     `new BigInteger("<decimal>")`), and with which printf format does jcLiteralInteger print the number"""
@@ -622,7 +650,7 @@ def load(src):
         except Untranslatable as e:
             d["ok"] = False; d["reason"] = str(e)
         out.append(d)
-    return {"bintlit": parse_bint_literal(g, j), "rows": out, "methods": mt, "tmap": tmap, "ops": ops, "cls": cls, "builders": builders, "sigs": sigs}
+    return {"printer": parse_printer(j, ops), "bintlit": parse_bint_literal(g, j), "rows": out, "methods": mt, "tmap": tmap, "ops": ops, "cls": cls, "builders": builders, "sigs": sigs}
 
 def lean_str(s):
     return '"' + (s or "").replace("\\", "\\\\").replace('"', '\\"').replace("\n", "\\n") + '"'
@@ -639,6 +667,7 @@ def emit(L):
     o = []
     w = o.append
     w("import AldorVerif.Model.JSem")
+    w("import AldorVerif.Model.JPrint")
     w("/-! GENERATED by translate/jmap.py from java/genjava.c (gjBValInfoTable, gj0TypeFrFmt),")
     w("java/javacode.c (JcOpInfoTable, operator texts, builders), foam.c (foamBValInfoTable) and")
     w("lib/java/src/foamj/{Math,Foam}.java.  Do not edit; rerun the translator. -/")
@@ -709,6 +738,17 @@ def emit(L):
         else:
             w("def %s %s : %s := %s" % (r["name"], ps, rt, r["lean_expr"]))
         w("")
+    P = L["printer"]
+    w("/-! ## the expression printer (javacode.c JcOpInfoTable + class table; jcBinOpPrint) -/")
+    w("/-- binary operations printed by `jcBinOpPrint`: name, text, class precedence, JCO_LR -/")
+    w("def binOps : List JPrint.Op := [")
+    for i, bo in enumerate(P["binops"]):
+        w("  ⟨%s, %s, %d, %s⟩%s" % (lean_str(bo["name"]), lean_str(bo["txt"]), bo["prec"], "true" if bo["lr"] else "false", "," if i + 1 < len(P["binops"]) else ""))
+    w("]")
+    w("/-- `jcBinOpPrint`, `jc0PrintWithParens`, `jc0NeedsParens` have exactly the text modelled in Model/JPrint.lean%s -/" % (
+        "" if P["standard"] else " -- NO: " + ", ".join(P["why"]) + " differ"))
+    w("def printerRuleStandard : Bool := %s" % ("true" if P["standard"] else "false"))
+    w("")
     B = L.get("bintlit", {"ok": False, "reason": "not parsed"})
     w("/-! ## big-integer constants (genjava.c gj0BInt, javacode.c jcLiteralInteger) -/")
     w("inductive BIntLit where")
@@ -793,6 +833,7 @@ def main(argv):
     L = load(src)
     changed = write_if_changed(out, emit(L))
     ok = sum(1 for r in L["rows"] if r["ok"])
+    print("jmap: printer: %d binary operators, rule %s" % (len(L["printer"]["binops"]), "standard" if L["printer"]["standard"] else "NOT the modelled one: " + ", ".join(L["printer"]["why"])))
     print("jmap: gj0BInt %s" % ("bound %(bound)d strict=%(strict)s fmt=%(fmt)s" % L["bintlit"] if L["bintlit"]["ok"] else "NOT translated: " + L["bintlit"].get("reason", "")))
     print("jmap: %d rows, %d translated, %d listed as untranslated; %d foamj methods translated; %s %s" % (
         len(L["rows"]), ok, len(L["rows"]) - ok, sum(1 for v in L["methods"].values() if v["ok"]),
